@@ -398,6 +398,18 @@ class FaultRun(object):
         nat = dump.natural(w, raw)
         is_pre, is_twin = self.classify(resp.status, raw, nat)
         k0, kd0 = plan[0]
+        # live position of every fault that fired (second faults have no
+        # dry-run ordinal)
+        live = []
+        for n_, ctx in enumerate(t.fired_ctx):
+            tabs = [tb for (_, tb) in ctx]
+            if ('DELETE', 'allocations') in ctx:
+                pos_ = 'alloc-window'
+            elif n_ > 0 and tabs and all(tb == 'consumers' for tb in tabs):
+                pos_ = 'consumer-cleanup'
+            else:
+                pos_ = 'elsewhere'
+            live.append((t.fired[n_][1], pos_))
         winners = getattr(t, 'flushed_winners', [])
         if winners and not is_pre:
             # the rows of the race winner are the environment's doing: the
@@ -461,9 +473,14 @@ class FaultRun(object):
                               dump.natural_core(nat, False))
                 what = sorted(set(x.split(']')[0].strip("['") for x in d))
                 outcome = 'success-but-not-twin'
+                kd_sig, pos_sig = kd0, pos
+                if len(fired) > 1 and ('deadlock-rollback',
+                                       'alloc-window') in live:
+                    # the second fault is what made the retry lose work
+                    kd_sig, pos_sig = 'deadlock-rollback', 'alloc-window'
                 self.add({'C17'}, 'success-but-state-differs-from-twin',
                          desc + '; diff vs twin: ' + '; '.join(d[:5]), plan,
-                         '%s/%s/%s' % (kd0, pos, '+'.join(what)))
+                         '%s/%s/%s' % (kd_sig, pos_sig, '+'.join(what)))
         else:
             wf = well_formed_error(resp, R.get('v'))
             if wf:
@@ -491,7 +508,9 @@ class FaultRun(object):
                 what = sorted(set(x.split(']')[0].strip("['") for x in d))
                 outcome = 'failure-with-effect'
                 sig = '%s/%s/%s' % (kd0, pos, '+'.join(what))
-                if pos == 'consumer-cleanup' and what == ['consumers']:
+                if what == ['consumers'] and (
+                        pos == 'consumer-cleanup' or
+                        any(p_ == 'consumer-cleanup' for (_, p_) in live)):
                     # the fault hit the clean-up transaction itself
                     sig = 'consumer-cleanup-transaction-failed'
                 self.add({'C17'}, 'failed-but-state-changed',
